@@ -102,6 +102,8 @@ pub fn opt_transform(parent_node: &Node, tag_name: &str) -> Result<Option<Transf
 }
 
 pub fn gen_string<T: Display>(tag_name: &str, value: &T) -> String {
+    // A CDATA section cannot contain its own end marker, it must be split into two sections
+    let value = value.to_string().replace("]]>", "]]]]><![CDATA[>");
     format!("<{tag_name} type=\"String\"><![CDATA[{value}]]></{tag_name}>\n")
 }
 
